@@ -12,7 +12,7 @@ import common
 PID = "C20"
 THEOREMS = {"CbOblig.C20": ["CbOblig.C20.ffiTable_rows_ok", "CbOblig.C20.ffiTable_no_overlap"],
             "CbProps.C20": ["CbProps.C20." + t for t in ["cast_matches_declared", "args_in_declaration_order",
-                                                          "lookup_deterministic", "int_roundtrip_32", "toInt32_range"]]}
+                                                          "lookup_deterministic", "int_roundtrip_32", "toInt32_range", "toInt32_congr", "toInt32_unique", "toInt32_idem"]]}
 
 DECLS = """use foreign.echo {
     double d1(double a);
@@ -85,6 +85,15 @@ def cases(extra=0, seed=1):
         out.append(("li %d" % v, prog("    int x = %s;\n    long r = echo.li(x);\n    println(r);\n" % lit), "%d\nEND\n" % (v * 4294967296 + 7), "ok", None))
         out.append(("di %d" % v, prog("    int x = %s;\n    double r = echo.di(x);\n    double e = x;\n    println(r * 2.0 == e);\n" % lit), "1\nEND\n", "ok", None))
         out.append(("vi %d" % v, prog("    int x = %s;\n    echo.vi(x);\n    println(echo.getseen());\n" % lit), "%d\nEND\n" % v, "ok", None))
+    # a long argument to an int parameter crosses as static_cast<int>: CbModel.Ffi.toInt32 (mirrored here; the four fixed
+    # values are also evaluated in Lean, CbProps/C20.lean); the result position shows it went through unchanged otherwise
+    wv = [4294967301, 2147483648, -2147483649, 123456789012345]
+    if extra:
+        wv += [r.range(-2**62, 2**62) for _ in range(extra)]
+    for w in wv:
+        t = ((w + 2147483648) % 4294967296) - 2147483648
+        out.append(("wrap %d" % w, prog("    long x = %d;\n    println(echo.i1(x));\n    println(echo.i2_1(5, x), echo.i2_0(x, 5));\n    long r = echo.li(x);\n    println(r);\n" % w),
+                    "%d\n%d %d\n%d\nEND\n" % (t, t, t, t * 4294967296 + 7), "ok", None))
     out.append(("i0", prog("    println(echo.i0());\n"), "-2147483648\nEND\n", "ok", None))
     out.append(("v0", prog("    echo.v0();\n    println(echo.getseen());\n"), "42\nEND\n", "ok", None))
     # unqualified calls take the same route
